@@ -128,20 +128,41 @@ impl<'a> Judge<'a> {
         }
         let mut by_erec: Vec<Vec<usize>> = vec![Vec::new(); m.erecs.len()];
         let mut matched = Vec::new();
+        // Roots that carry the same trace id have descendants whose copies cannot be told apart
+        // by content (same trace id, name and parent): such a copy is taken to belong to the root
+        // that is delivered in the same report call, if there is one.
+        let mut root_batch: HashMap<(&U128, &str), usize> = HashMap::new();
+        for (bi, b) in ex.batches.iter().enumerate() {
+            for r in &b.records {
+                if m.erecs.iter().any(|e| e.name == e.root && e.name == r.name && e.trace == r.trace) {
+                    root_batch.entry((&r.trace, r.name.as_str())).or_insert(bi);
+                }
+            }
+        }
         for (bi, b) in ex.batches.iter().enumerate() {
             for r in &b.records {
                 let mut hit = None;
                 if let Some(c) = by_name.get(&(&r.trace, r.name.as_str())) {
-                    // prefer a candidate that still has room
+                    // prefer a candidate that still has room (and, among those, one whose root is
+                    // in this report call)
+                    let mut with_room = None;
                     for &ei in c {
                         let e = &m.erecs[ei];
                         if resolve(&idmap, &e.parent, r.parent) {
                             if by_erec[ei].len() < e.count {
-                                hit = Some(ei);
-                                break;
+                                if root_batch.get(&(&e.trace, e.root.as_str())) == Some(&bi) {
+                                    hit = Some(ei);
+                                    break;
+                                }
+                                with_room.get_or_insert(ei);
                             } else if hit.is_none() {
                                 hit = Some(ei);
                             }
+                        }
+                    }
+                    if let Some(ei) = with_room {
+                        if hit.map_or(true, |h| by_erec[h].len() >= m.erecs[h].count) {
+                            hit = Some(ei);
                         }
                     }
                 }
